@@ -5,8 +5,10 @@ package c18
 import (
 	"bytes"
 	"encoding/json"
+	"errors"
 	"fmt"
 	"io"
+	"net"
 	"net/http"
 	"net/url"
 	"os"
@@ -24,6 +26,15 @@ import (
 )
 
 const prop = "C18"
+const maxBody = 4 << 20
+const queryTimeout = 25 * time.Second
+
+var queryClient = &http.Client{Timeout: queryTimeout, Transport: &http.Transport{MaxIdleConnsPerHost: 4, DisableCompression: true}}
+
+func isTimeout(err error) bool {
+	var ne net.Error
+	return errors.As(err, &ne) && ne.Timeout()
+}
 
 func TestMain(m *testing.M) {
 	code := m.Run()
@@ -183,14 +194,28 @@ func promQuery(s *bb.Server, db, expr string, start, end, step int64) (*Result, 
 	} else {
 		v.Set("time", msToSec(start))
 	}
-	resp, err := s.HTTP.Get(s.URL() + path + "?" + v.Encode())
+	resp, err := queryClient.Get(s.URL() + path + "?" + v.Encode())
 	if err != nil {
+		if isTimeout(err) && s.Alive() {
+			// the query hangs (the reference needs milliseconds): the server is replaced, it may be spinning
+			s.Kill()
+			return &Result{Err: fmt.Sprintf("no answer within %v", queryTimeout)}, 0, "", nil
+		}
 		return nil, 0, "", err
 	}
-	b, err := io.ReadAll(resp.Body)
+	b, err := io.ReadAll(io.LimitReader(resp.Body, maxBody+1))
 	resp.Body.Close()
 	if err != nil {
+		if isTimeout(err) && s.Alive() {
+			s.Kill()
+			return &Result{Err: fmt.Sprintf("answer not complete within %v", queryTimeout)}, 0, "", nil
+		}
 		return nil, 0, "", err
+	}
+	if len(b) > maxBody {
+		// a runaway answer (the reference answers of the generated queries are a few KiB)
+		queryClient.CloseIdleConnections()
+		return &Result{Err: fmt.Sprintf("response body larger than %d bytes, starts with: %.600s", maxBody, string(b))}, resp.StatusCode, "", nil
 	}
 	raw := string(b)
 	var pr promResp
